@@ -1,0 +1,35 @@
+//go:build verif
+
+package ingress
+
+import (
+	"fmt"
+
+	"github.com/openkruise/rollouts/api/v1beta1"
+	"github.com/openkruise/rollouts/pkg/trafficrouting/network"
+	netv1 "k8s.io/api/networking/v1"
+	gatewayv1beta1 "sigs.k8s.io/gateway-api/apis/v1beta1"
+)
+
+// Hooks for the verification harness (build tag `verif` only; nothing changes
+// without it).  `p` must be a provider returned by NewIngressTrafficRouting, so
+// the script is the one the real constructor selected for the class.
+
+// VerifBuildCanaryIngress exposes the unexported builder of the canary Ingress.
+func VerifBuildCanaryIngress(p network.NetworkProvider, stable *netv1.Ingress) (*netv1.Ingress, error) {
+	r, ok := p.(*ingressController)
+	if !ok {
+		return nil, fmt.Errorf("not an ingress provider")
+	}
+	return r.buildCanaryIngress(stable), nil
+}
+
+// VerifExecuteLuaForCanary exposes the unexported annotation script runner.
+func VerifExecuteLuaForCanary(p network.NetworkProvider, annotations map[string]string, weight *int32,
+	matches []v1beta1.HttpRouteMatch, headerModifier *gatewayv1beta1.HTTPHeaderFilter) (map[string]string, error) {
+	r, ok := p.(*ingressController)
+	if !ok {
+		return nil, fmt.Errorf("not an ingress provider")
+	}
+	return r.executeLuaForCanary(annotations, weight, matches, headerModifier)
+}
